@@ -29,7 +29,10 @@ def decCtx (fg bg b r u : String) : Option Ctx := do
   let u ← decBool u
   pure { fg := fg, bg := bg, bold := b, reverse := r, underline := u }
 
-def encOut (o : Out) : String := enc o.command ++ ":" ++ enc o.target ++ ":" ++ enc o.payload
+/-- command:target:payload:what-is-really-sent (empty when `Irc._truncateMsg` leaves the line alone) -/
+def encOut (o : Out) : String :=
+  enc o.command ++ ":" ++ enc o.target ++ ":" ++ enc o.payload ++ ":" ++
+    (if sentLine o = outLine o then "" else enc (sentLine o))
 def encOuts (os : List Out) : String := if os.isEmpty then "-" else ",".intercalate (os.map encOut)
 
 def decEnv : List String → Option Env
@@ -64,6 +67,67 @@ def decCfg : List String → Option Cfg
     pure { moresLength := l, maximumMores := m, instant := i, mores := on }
   | _ => none
 
+def textsOf (lang : Str) : Texts :=
+  match Gen.localeTexts.find? (fun r => r.1 == lang) with
+  | some r => { moreSingular := r.2.1, morePlural := r.2.2.1, emptyReply := r.2.2.2.1, errorPrefix := r.2.2.2.2 }
+  | none => Texts.english
+
+def decConfVals : List String → Option ConfVals
+  | [a, b, c, d, e, f, g, h, i] => do
+    let a ← decBool a
+    let b ← decBool b
+    let c ← decBool c
+    let d ← decBool d
+    let e ← decBool e
+    let f ← decBool f
+    let g ← g.toNat?
+    let h ← h.toNat?
+    let i ← i.toNat?
+    pure { withNotice := a, inPrivate := b, withNickPrefix := c, errNotice := d, errPrivate := e, mores := f,
+           moresLength := g, maximum := h, instant := i }
+  | _ => none
+
+def decCall (fs : List String) : Option Call :=
+  match fs with
+  | bp :: mp :: nick :: mt :: ch :: to :: pt :: pn :: pm :: ct :: cm :: tn :: th :: no :: pr :: pf :: ac :: sc :: lang ::
+      nwp :: rest =>
+    match rest with
+    | g1 :: g2 :: g3 :: g4 :: g5 :: g6 :: g7 :: g8 :: g9 :: oc :: c1 :: c2 :: c3 :: c4 :: c5 :: c6 :: c7 :: c8 :: c9 :: [] => do
+      let bp ← dec bp
+      let mp ← dec mp
+      let nick ← dec nick
+      let mt ← dec mt
+      let ch ← decBool ch
+      let to ← decOpt to
+      let pt ← decBool pt
+      let pn ← decBool pn
+      let pm ← decBool pm
+      let ct ← decBool ct
+      let cm ← decBool cm
+      let tn ← decBool tn
+      let th ← decOpt th
+      let no ← decOptBool no
+      let pr ← decOptBool pr
+      let pf ← decOptBool pf
+      let ac ← decBool ac
+      let sc ← decBool sc
+      let lang ← dec lang
+      let nwp ← decBool nwp
+      let g ← decConfVals [g1, g2, g3, g4, g5, g6, g7, g8, g9]
+      let oc ← decOpt oc
+      let cv ← decConfVals [c1, c2, c3, c4, c5, c6, c7, c8, c9]
+      pure { botPrefix := bp, msgPrefix := mp, nick := nick, msgTarget := mt, msgIsChannel := ch, to := to,
+             pubTo := pt, pubNick := pn, pubMsgTarget := pm, chanTo := ct, chanMsgTarget := cm, toIsNick := tn,
+             toHostmask := th, notice := no, priv := pr, prefixNick := pf, action := ac, stripCtcp := sc,
+             texts := textsOf lang, noticeWhenPrivate := nwp, confGlobal := g,
+             confChan := oc.map fun name => (name, cv) }
+    | _ => none
+  | _ => none
+
+/-- the text a command hands to `irc.reply`: a nested command's reply is cut to reply.maximumLength -/
+def nestedText (nested : String) (s : Str) : Option Str :=
+  if nested = "~" then some s else nested.toNat?.map fun n => nestedArg n s
+
 /-- the contexts with which the chunks after the first are re-opened, and the overhead that was reserved -/
 def lineContexts : Option Ctx → List Str → List Ctx
   | _, [] => []
@@ -77,7 +141,7 @@ def lineContexts : Option Ctx → List Str → List Ctx
 /-- the `length` handed to `ircutils.wrap` ("~" when the reply goes out as one message) -/
 def wrapLength (e : Env) (cfg : Cfg) (s : Str) : String :=
   match prepare e cfg s with
-  | some (allowed, s1, false) => toString (allowed - suffixReserve (blen s1))
+  | some (allowed, s1, false) => toString (allowed - suffixReserve e.texts (blen s1))
   | _ => "~"
 
 /-- state of the driver: the `_mores` dictionary -/
@@ -123,31 +187,50 @@ def stepLine (st : St) : List String → St × String
     (st, match dec s, decEnv env with
       | some s, some e => encOut (makeReply e s)
       | _, _ => "bad-op")
-  | "prep" :: s :: l :: m :: i :: on :: env =>
-    (st, match dec s, decCfg [l, m, i, on], decEnv env with
-      | some s, some cfg, some e =>
-        (match prepare e cfg s with
-         | none => "unsupported"
-         | some (allowed, s1, single) => toString allowed ++ "\t" ++ enc s1 ++ "\t" ++ encBool single)
-      | _, _, _ => "bad-op")
-  | "reply" :: mask :: s :: chunks :: l :: m :: i :: on :: env =>
-    match dec mask, dec s, decList chunks, decCfg [l, m, i, on], decEnv env with
-    | some mask, some s, some chunks, some cfg, some e =>
-      (match prepare e cfg s with
-       | none => (st, "unsupported")
-       | some (_, s1, single) =>
-         if !single && chunks.flatten ≠ munge s1 then (st, "bad-chunks")
-         else match reply e cfg chunks s with
+  | "prep" :: s :: nested :: call =>
+    (st, match dec s, decCall call with
+      | some s, some c =>
+        (match nestedText nested s with
+         | none => "bad-op"
+         | some s =>
+           if c.action then "action"
+           else match prepare c.env c.cfg s with
+             | none => "unsupported"
+             | some (allowed, s1, single) => toString allowed ++ "\t" ++ enc s1 ++ "\t" ++ encBool single)
+      | _, _ => "bad-op")
+  | "reply" :: s :: chunks :: nested :: call =>
+    match dec s, decList chunks, decCall call with
+    | some s, some chunks, some c =>
+      (match nestedText nested s with
+       | none => (st, "bad-op")
+       | some s =>
+         let e := c.env
+         let cfg := c.cfg
+         let contractOk : Bool := c.action || (match prepare e cfg s with
+           | some (_, s1, false) => chunks.flatten = munge s1
+           | _ => true)
+         if !contractOk then (st, "bad-chunks")
+         else match replyCall e cfg chunks s with
            | .sent now stored =>
              ((match stored with
-               | some l => st.store mask e.nick (storedPrivate e) l
+               | some l => st.store c.storeMask e.nick (storedPrivate e) l
                | none => st),
               "sent\t" ++ encOuts now ++ "\t" ++ (match stored with
                 | some l => encOuts l
-                | none => "~") ++ "\t" ++ wrapLength e cfg s)
+                | none => "~") ++ "\t" ++ (if c.action then "~" else wrapLength e cfg s) ++ "\t" ++ enc c.storeMask)
            | .wrapFailed r => (st, "wrapfailed\t" ++ encRes r)
            | .unsupported => (st, "unsupported"))
-    | _, _, _, _, _ => (st, "bad-op")
+    | _, _, _ => (st, "bad-op")
+  | "error" :: s :: call =>
+    (st, match dec s, decCall call with
+      | some s, some c =>
+        (if s.isEmpty then "nothing" else encOut (makeReply c.errorEnv s))
+      | _, _ => "bad-op")
+  | ["texts", lang] =>
+    (st, match dec lang with
+      | some lang => let t := textsOf lang
+        enc t.moreSingular ++ "\t" ++ enc t.morePlural ++ "\t" ++ enc t.emptyReply ++ "\t" ++ enc t.errorPrefix
+      | none => "bad-op")
   | ["more", n, mask, nick] =>
     match n.toNat?, dec mask, decOpt nick with
     | some n, some mask, some nick => let r := st.more mask nick n; (r.1, encMoreRes r.2)
